@@ -355,6 +355,49 @@ theorem C13_cross_hook_partial (env : Env) (enum : List String → List String) 
     subst hab
     exact hdisj a ha hb
 
+/-- **C13_report_path.** Every task collected while handling a file carries that file's path (even when the
+module object came out of the `sys.modules` cache or from a shadowing file — the root of F12), so tasks of
+different files of the walk never share a name; together with `C13_walk_once` and
+`C13_cross_hook_partial` all task names of a session are pairwise distinct outside the F8b class. -/
+theorem C13_report_path (env : Env) (enum : List String → List String) (w : World) (path p : Path) (b : String) (o : ObjId)
+    (h : Report.succ p b o ∈ (collectFile env enum w path).2) : p = path := by
+  unfold collectFile at h
+  by_cases htf : env.cfg.isTaskFile path = true
+  · simp only [htf, Bool.not_true, Bool.false_eq_true, ↓reduceIte, Generated.collectFileOrder, List.foldl_cons, List.foldl_nil,
+      collectFileStep, beq_self_eq_true] at h
+    cases hi : importPath env w path with
+    | mk w1 om =>
+      cases om with
+      | none => simp [hi] at h
+      | some m =>
+        simp only [hi, Bool.false_eq_true, ↓reduceIte, List.nil_append] at h
+        have hne : ("task" == "collect") = false := by decide
+        simp only [hne, Bool.false_eq_true, ↓reduceIte] at h
+        cases hd : decoratorReports enum w1 path with
+        | mk w2 ors =>
+          cases ors with
+          | none => simp [hd] at h
+          | some rs =>
+            simp only [hd, Bool.false_eq_true, ↓reduceIte] at h
+            rcases List.mem_append.1 h with h | h
+            · exact ((C13_prefix_exact w1 path m p b o).1 h).1
+            · unfold decoratorReports at hd
+              by_cases he : (regGet w1.registry path).isEmpty = true
+              · simp [he] at hd; obtain ⟨_, rfl⟩ := hd; simp at h
+              · simp only [he] at hd
+                by_cases hdup : hasDup (regGet w1.registry path) = true
+                · simp [hdup] at hd
+                · simp only [hdup] at hd
+                  cases hp : parseCollected enum { w1 with registry := regErase w1.registry path } (regGet w1.registry path) with
+                  | none => simp [hp] at hd
+                  | some d =>
+                    simp only [hp, Bool.false_eq_true, ↓reduceIte, Prod.mk.injEq, Option.some.injEq] at hd
+                    obtain ⟨_, rfl⟩ := hd
+                    obtain ⟨e, _, heq⟩ := List.mem_map.1 h
+                    simp only [Report.succ.injEq] at heq
+                    exact heq.1.symm
+  · simp [htf] at h
+
 /-! ## Module names and the `sys.modules` cache -/
 
 /-- **C13_module_inj_full**: different files get different module names. -/
